@@ -346,6 +346,11 @@ func (p *poller) readWriteLoop() {
 										_ = c.closeWithError(err)
 										break
 									}
+									if n == 0 && bufLen > 0 && !c.IsUDP() {
+										// end of stream, everything has been read.
+										_ = c.closeWithError(io.EOF)
+										break
+									}
 									if n < bufLen && !c.IsUDP() {
 										// a datagram read is always short, only a short
 										// stream read means there is no more data.
@@ -362,6 +367,21 @@ func (p *poller) readWriteLoop() {
 					}
 
 					if ev.Events&epollEventsError != 0 {
+						if g.onRead == nil &&
+							ev.Events&(syscall.EPOLLERR|syscall.EPOLLHUP) == 0 &&
+							(c.typ == ConnTypeTCP || c.typ == ConnTypeUnix) &&
+							hasUnreadData(fd) {
+							// the peer has shut down its side, but data it sent
+							// before is still unread (read times per loop
+							// exhausted, or an async read is on the way): the
+							// connection is closed once that data has been read.
+							if asyncReadEnabled && !isOneshot {
+								// no further edge will come: make sure another
+								// read pass follows the running one, it ends at EOF.
+								c.AsyncRead()
+							}
+							continue
+						}
 						_ = c.closeWithError(io.EOF)
 						continue
 					}
@@ -563,6 +583,15 @@ func newPoller(g *Engine, isListener bool, index int) (*poller, error) {
 	}
 
 	return p, nil
+}
+
+// hasUnreadData reports whether the socket still holds received bytes.
+//
+//go:norace
+func hasUnreadData(fd int) bool {
+	var n int32
+	_, _, errno := syscall.Syscall(syscall.SYS_IOCTL, uintptr(fd), uintptr(syscall.TIOCINQ), uintptr(unsafe.Pointer(&n)))
+	return errno == 0 && n > 0
 }
 
 //go:norace
